@@ -472,7 +472,7 @@ Commands                Shorthand    Action
  -getconstructpnts      -gcp         get points for dynamic construction
  -loadconstructed       -lcp         load points for dynamic construction
  -getcoefficients       -gc          get the hierarchical coefficients of the grid
- -setcoefficients       -sc          set the hierarchical coefficients of the grid
+ -setcoefficients       -sco         set the hierarchical coefficients of the grid
  -getpoly                            get polynomial space
  -summary               -s           writes short description
 
@@ -756,7 +756,7 @@ Note: at least one of -outputfile or -print must be specified, otherwise the com
             case command_setcoefficients:
                 cout << R"help(
 Commands             Shorthand    Action
- -setcoefficients    -sc          set the hierarchical coefficients
+ -setcoefficients    -sco         set the hierarchical coefficients
 
 Accepted options:
 Options              Required     Value         Action
